@@ -206,6 +206,7 @@ func kConc(args []string) (string, string) {
 		}()
 	}
 	var closeReturned int64 // unix nanos of the first Close return
+	var openAtClose atomic.Value
 	var wg sync.WaitGroup
 	for ci := range calls {
 		wg.Add(1)
@@ -230,6 +231,14 @@ func kConc(args []string) (string, string) {
 				case "C":
 					c.err = w.Close()
 					atomic.CompareAndSwapInt64(&closeReturned, 0, time.Now().UnixNano())
+					// when Close has returned every worker's file carries its final name
+					if ents, err := os.ReadDir(dir); err == nil {
+						for _, e := range ents {
+							if strings.HasSuffix(e.Name(), ".open") {
+								openAtClose.Store(e.Name())
+							}
+						}
+					}
 				case "S":
 					time.Sleep(time.Duration(c.toks[0]) * time.Microsecond)
 				}
@@ -278,7 +287,7 @@ func kConc(args []string) (string, string) {
 		cm.mu.Unlock()
 	}
 	if hang != "" {
-		return "returned=not-all", "VIOL c10-hang calls_did_not_return:" + hang
+		return "returned=not-all open=?", "VIOL c10-hang calls_did_not_return:" + hang
 	}
 	viol := ""
 	setViol := func(sig, detail string) {
@@ -320,6 +329,9 @@ func kConc(args []string) (string, string) {
 			t := tokOfId(m.get("WARC-Record-ID"))
 			byTok[t] = append(byTok[t], member{strings.TrimSuffix(n, ".open"), m})
 		}
+	}
+	if v := openAtClose.Load(); v != nil {
+		setViol("c10-open-after-close", fmt.Sprintf("a Close call returned while %v was still in progress", v))
 	}
 	if openLeft != 0 {
 		setViol("c10-open-after-close", fmt.Sprintf("%d in-progress files after Close returned", openLeft))
@@ -399,7 +411,15 @@ func kConc(args []string) (string, string) {
 	if viol != "" {
 		oracle = viol
 	}
-	return "returned=all open=0", oracle
+	ncalls := 0
+	for _, l := range calls {
+		for _, c := range l {
+			if c.op != "S" {
+				ncalls++
+			}
+		}
+	}
+	return fmt.Sprintf("returned=%d/%d open=0", ncalls, ncalls), oracle
 }
 
 func (m *concMarshaler) hadCont(tok int) bool {
@@ -457,6 +477,10 @@ func genConc(r *rng, n int, tier string, emit func(string, ...string)) {
 			a, b := next(), next()
 			emit("conc", cfg, fmt.Sprintf("W%d,C,C,W%d/S%d,C", a, b, r.intn(400)), "-")
 			stat("conc-scenario", "double-close")
+		case 6: // two Close calls while a worker is still writing: the second must wait for the workers too
+			a := next()
+			emit("conc", cfg, fmt.Sprintf("W%d/S2000,C/S6000,C", a), fmt.Sprintf("mid:%d;release:%d:after:2.1:25", a, a))
+			stat("conc-scenario", "two-closes-during-write")
 		case 4: // Rotate while a record is half written
 			a, b := next(), next()
 			emit("conc", cfg, fmt.Sprintf("W%d,W%d/S2000,R", a, b), fmt.Sprintf("mid:%d;release:%d:after:1.1:20", a, a))
